@@ -122,7 +122,7 @@ class Batch:
         if self.cfg == 'g2w':
             c.append('--wild')
         if self.cfg == 'vg':
-            c = ['valgrind', '-q', '--error-exitcode=77', '--errors-for-leak-kinds=none', '--leak-check=no'] + c + ['--no-rlimit']
+            c = ['valgrind', '-q', '--error-exitcode=77', '--errors-for-leak-kinds=none', '--leak-check=no'] + c + ['--no-rlimit', '--watchdog-s', '1500']
         return c
 
     def worker(self, w, W):
@@ -232,7 +232,7 @@ def crash_detail(rc, stderr):
         return 'asan:allocation-size-too-big'
     if 'hard rss limit' in stderr.lower():
         return 'asan:rss-limit-exceeded'
-    if rc == -14 or rc == -999:
+    if rc in (-14, -27, -999):
         return 'hang:watchdog'
     if rc < 0:
         return 'signal%d' % (-rc)
@@ -251,7 +251,7 @@ def last_traced_op(stderr):
     return k, cell
 
 
-def run_plan(cfg, plan, trace=False, timeout=400):
+def run_plan(cfg, plan, trace=False, timeout=600):
     """Fresh process, one plan. Returns outcome dict: cls ('ok' | violation class | crash class), digest, rc, stderr, result."""
     os.makedirs(WORK, exist_ok=True)
     path = os.path.join(WORK, 'plan.%d.%d.json' % (os.getpid(), threading.get_ident()))
@@ -263,7 +263,7 @@ def run_plan(cfg, plan, trace=False, timeout=400):
     if cfg == 'g2w':
         c.append('--wild')
     if cfg == 'vg':
-        c = ['valgrind', '-q', '--error-exitcode=77', '--leak-check=no'] + c + ['--no-rlimit']
+        c = ['valgrind', '-q', '--error-exitcode=77', '--leak-check=no'] + c + ['--no-rlimit', '--watchdog-s', '1500']
     try:
         p = subprocess.run(c, stdout=subprocess.PIPE, stderr=subprocess.PIPE, text=True, errors='replace', timeout=timeout)
         rc, out, err = p.returncode, p.stdout, p.stderr
@@ -539,7 +539,7 @@ def main(argv):
                 continue
             triaged += 1
             plan = gen_plan(b.cfg, prop, tier, seed, c['idx'])
-            o = run_plan(b.cfg, plan, trace=True, timeout=150)
+            o = run_plan(b.cfg, plan, trace=True, timeout=1800 if b.cfg == 'vg' else 400)
             p, cls, d = outcome_class(prop, plan, o, b.cfg)
             tries = 0
             while cls == 'ok' and b.cfg == 'ts' and tries < 4 and o['rc'] != -999:
@@ -548,6 +548,11 @@ def main(argv):
                 o = run_plan(b.cfg, plan, trace=True)
                 p, cls, d = outcome_class(prop, plan, o, b.cfg)
                 tries += 1
+            if cls == 'ok' and c['rc'] in (-14, -27):
+                # killed by the watchdog in the batch, but the same plan completes on its own: a slow run on a busy machine
+                # (valgrind, -O0, heavy contention), not a hang - a real hang also hangs when replayed
+                extra['slow_runs_killed_by_watchdog'] = extra.get('slow_runs_killed_by_watchdog', 0) + 1
+                continue
             if cls == 'ok':
                 # the abnormal end did not reproduce from its plan: machinery fault
                 log('check: abnormal end of run %d (%s, rc=%s) did not reproduce from its plan' % (c['idx'], b.cfg, c['rc']))
